@@ -78,10 +78,43 @@ def _ann_value(vs):
     if a == "bytearray":
         return bytearray(b)
     if a == "memoryview":
-        return memoryview(b)
+        return memoryview(b)                                   # read-only view of bytes
+    if a == "mv_rw":
+        return memoryview(bytearray(b))                        # writable view (what a fragmented receive yields)
+    if a in ("mv_slice", "mv_rw_slice"):
+        pre = b"\xa5" * (1 + vs.get("seed", 0) % 5)
+        whole = pre + b + b"\x5a\x5a"
+        if a == "mv_rw_slice":
+            whole = bytearray(whole)
+        return memoryview(whole)[len(pre):len(pre) + len(b)]    # slice of a larger buffer
     if a == "str":
         return b.decode("latin-1")
     return b
+
+
+_AS_TYPES = ["bytes", "bytes", "bytearray", "memoryview", "mv_rw", "mv_rw", "mv_slice", "mv_rw_slice"]
+
+
+def _update_ann(d, spec_ann):
+    """bring a REUSED annotation dict to the contents of spec_ann, mutating buffers in place where possible"""
+    want = {k for k, _ in spec_ann}
+    for k in list(d):
+        if k not in want:
+            del d[k]
+    inplace = 0
+    for k, vs in spec_ann:
+        new = _bytes(vs)
+        old = d.get(k)
+        a = vs.get("as", "bytes")
+        if isinstance(old, bytearray) and a == "bytearray" and len(old) == len(new):
+            old[:] = new
+            inplace += 1
+        elif isinstance(old, memoryview) and not old.readonly and a in ("mv_rw", "mv_rw_slice") and len(old) == len(new):
+            old[:] = new
+            inplace += 1
+        else:
+            d[k] = _ann_value(vs)
+    return inplace
 
 
 def _compress_bound(n):
@@ -381,7 +414,8 @@ class WireWorld(World):
               "sender_bad_key", "sender_str_value", "open_end", "sentinel_read", "large_over_60000",
               "chunk_overrun_rejected", "reencoded", "sweep_cut", "sweep_flip",
               "concurrent", "concurrent_preempted", "concurrent_overlap",
-              "sent_timeout_mode", "short_send"]
+              "sent_timeout_mode", "short_send", "memoryview_writable_annotation", "memoryview_slice_annotation",
+              "echo_writable_memoryview", "annotation_dict_reused", "annotation_buffer_mutated_in_place", "annotation_family"]
     RULE = ("plan = (COMPRESSION, MAX_MESSAGE_SIZE, correlation id, USE_MSG_WAITALL; 8-16 cases, each a stream of 1-3 "
             "messages with boundary-biased fields + sentinel + transport script (fragmentation seed, errno/short-read "
             "probabilities, truncation offset, mutation list) or a sender-only input); distinct = distinct plan digest / "
@@ -433,7 +467,7 @@ class WireWorld(World):
                 used = {k for k, _ in m["ann"]}
                 while len(m["ann"]) < 2 or (len(m["ann"]) < 6 and rng.random() < 0.5):     # a long constructor
                     m["ann"].append([self._key(rng, used), {"len": rng.randint(0, 12), "seed": rng.getrandbits(16), "mode": "text",
-                                                            "as": rng.choice(["bytes", "bytearray", "memoryview"])}])
+                                                            "as": rng.choice(_AS_TYPES)}])
                 msgs.append(m)
             r = rng.random()
             corr = None if r < 0.3 else "%032x" % rng.getrandbits(128)
@@ -465,7 +499,7 @@ class WireWorld(World):
             r = rng.random()
             ln = 0 if r < 0.25 else rng.randint(1, 24) if r < 0.85 else rng.randint(25, 300)
             ann.append([self._key(rng, used), {"len": ln, "seed": rng.getrandbits(16), "mode": rng.choice(["rand", "text"]),
-                                               "as": rng.choice(["bytes", "bytes", "bytearray", "memoryview"])}])
+                                               "as": rng.choice(_AS_TYPES)}])
         asz = sum(8 + v["len"] for _, v in ann)
         if asz > lim and rng.random() < 0.9:
             while ann and asz > lim:
@@ -977,14 +1011,17 @@ class WireWorld(World):
                                 % (i, ti, len(rec["enc"]), len(rec["dec"]), rec["left"]))
 
     # ---------------------------------------------------------------- sender side
-    def _encode_sut(self, ctx, i, spec, cfg):
+    def _encode_sut(self, ctx, i, spec, cfg, ann_obj=None):
         """build with the real SendingMessage under the run configuration; apply the sender oracle.
         returns (raw bytes | None, expected fields | None)"""
         smax = config.MAX_MESSAGE_SIZE
         payload = _bytes(spec.get("pay"))
-        ann = {}
-        for k, v in spec.get("ann") or []:
-            ann[k] = _ann_value(v)
+        if ann_obj is not None:
+            ann = ann_obj
+        else:
+            ann = {}
+            for k, v in spec.get("ann") or []:
+                ann[k] = _ann_value(v)
         asz = sum(8 + len(v) for v in ann.values())
         applies = bool(cfg.get("comp")) and len(payload) > 100
         try:
@@ -1103,7 +1140,11 @@ class WireWorld(World):
             for _, v in spec.get("ann") or []:
                 if v.get("len", 0) == 0:
                     ctx.probe("zero_len_annotation")
-                if v.get("as") == "memoryview":
+                if v.get("as") in ("mv_rw", "mv_rw_slice"):
+                    ctx.probe("memoryview_writable_annotation")
+                if v.get("as") in ("mv_slice", "mv_rw_slice"):
+                    ctx.probe("memoryview_slice_annotation")
+                if v.get("as") in ("memoryview", "mv_rw", "mv_slice", "mv_rw_slice"):
                     ctx.probe("memoryview_annotation")
             if spec.get("type") in (0, 255) or spec.get("ser") in (0, 255) or spec.get("seq") in (0, 0xFFFF) or \
                     (spec.get("flags", 0) | MANAGED) == 0xFFFF:
@@ -1121,7 +1162,12 @@ class WireWorld(World):
             config.MAX_MESSAGE_SIZE = BIG
             current_context.correlation_id = uuid.UUID(bytes=dec["corr"]) if dec["corr"] is not None else None
             try:
-                sm = PR.SendingMessage(msg.type, msg.flags, msg.seq, msg.serializer_id, dec["data"], dict(dec["ann"]))
+                # echo shape: the annotations of the RECEIVED message (memoryviews into the receive buffer, writable when
+                # receive_data assembled it from fragments) go into a new message as they are
+                echo = dict(msg.annotations)
+                if any(isinstance(v, memoryview) and not v.readonly for v in echo.values()):
+                    ctx.probe("echo_writable_memoryview")
+                sm = PR.SendingMessage(msg.type, msg.flags, msg.seq, msg.serializer_id, dec["data"], echo)
                 raw = bytes(sm.data)
                 m2 = PR.ReceivingMessage(raw[:40], raw[40:])
                 dec2 = _decoded(m2)
@@ -1252,10 +1298,27 @@ class WireWorld(World):
     # ---------------------------------------------------------------- stream case
     def _build_msgs(self, ctx, i, msgs, cfg):
         raws, exps, specs, hostile = [], [], [], []
+        dicts, seen_idx = {}, []
         for spec in msgs or []:
             via = spec.get("via", "sut")
+            if via != "sut":
+                seen_idx.append(0)
             if via == "sut":
-                raw, exp = self._encode_sut(ctx, i, spec, cfg)
+                ann_obj = None
+                if spec.get("reuse") is not None and spec["reuse"] in dicts:
+                    # the caller keeps ONE annotation dict and changes it between messages (values replaced or buffers
+                    # mutated in place): every message must carry what the dict held when it was built
+                    ann_obj = dicts[spec["reuse"]]
+                    if _update_ann(ann_obj, spec.get("ann") or []):
+                        ctx.probe("annotation_buffer_mutated_in_place")
+                    ctx.probe("annotation_dict_reused")
+                else:
+                    ann_obj = {}
+                    for k, v in spec.get("ann") or []:
+                        ann_obj[k] = _ann_value(v)
+                dicts[len(seen_idx)] = ann_obj
+                seen_idx.append(1)
+                raw, exp = self._encode_sut(ctx, i, spec, cfg, ann_obj)
                 if raw is None:
                     continue
                 raws.append(raw)
